@@ -307,7 +307,12 @@ def shape(obj, depth=0, seen=None):
         d = object.__getattribute__(obj, '__dict__')
         fields = []
         for name in sorted(d):
-            if name in ('_readOnly', 'componentType', 'subtypeSpec', 'sizeSpec', 'namedValues',
+            if name == '_readOnly':
+                # the initializers clone()/subtype() start from: the tag set recorded there must stay the type's
+                ro = d[name]
+                fields.append(('_readOnly.tagSet', repr(ro.get('tagSet')) if isinstance(ro, dict) else repr(type(ro))))
+                continue
+            if name in ('componentType', 'subtypeSpec', 'sizeSpec', 'namedValues',
                         '_tagMap', 'encoding'):
                 continue
             val = d[name]
